@@ -33,3 +33,11 @@ for cls in ("Alignment",):
              requires=["not check_validity"],      # the validating path is the contract of Alignment.check (C17)
              binds={"self.unitary_alignments": "unitary_alignments", "self.continuum": "continuum", "self._disorder": "disorder"},
              serves={"C01", "C03", "C10", "C11", "C17"})
+
+contract(F + "SoftAlignment.__init__",
+         params={"self": ALIGN("SoftAlignment"), "unitary_alignments": ListOf(UAT()), "continuum": OptObjT(ObjT("Continuum")),
+                 "check_validity": BoolT(), "disorder": OptT(RealT())},
+         modifies=["self"],
+         requires=["not check_validity"],
+         binds={"self.unitary_alignments": "unitary_alignments", "self.continuum": "continuum", "self._disorder": "disorder"},
+         serves={"C11", "C03", "C17"})
